@@ -1,8 +1,10 @@
 SPECIFICATION Spec
 CONSTANTS
   Ids = {1, 2}
-  Cfgs = {"c1", "c2", "c3", "c5", "c6"}
+  Cfgs = {"c1", "c2", "c3", "c5", "c6", "c7"}
   OwnScaleCfgs = {"c3"}
+  NiceSensitive = {"c7"}
+  FitAxisAtExport = FALSE
   ReadsSharedDirection = FALSE
   ShareDefaultScale = TRUE
   MaxLen = 4
